@@ -39,6 +39,25 @@ def _eq(a, b):
     return a is b or (type(a) is type(b) and a == b)
 
 
+def neutral_variant(x, rng):
+    """The same values in containers that MATCH the original for the prefix relation but flatten in another order / are of another dict
+    kind: dict kinds are rebuilt with their keys reversed (sometimes as another standard dict kind), sequences are rebuilt recursively."""
+    from collections import OrderedDict, defaultdict, deque
+
+    t = type(x)
+    if t in (dict, OrderedDict, defaultdict):
+        items = [(k, neutral_variant(v, rng)) for k, v in reversed(list(x.items()))]
+        kind = rng.choice([t, dict, OrderedDict, defaultdict])
+        return defaultdict(getattr(x, 'default_factory', None) or int, items) if kind is defaultdict else kind(items)
+    if t is list:
+        return [neutral_variant(v, rng) for v in x]
+    if t is tuple:
+        return tuple(neutral_variant(v, rng) for v in x)
+    if t is deque:
+        return deque((neutral_variant(v, rng) for v in x), maxlen=x.maxlen)
+    return x
+
+
 def check_case(sink, seed, idx):  # noqa: C901
     rng = gen.case_rng(seed, 'c10', idx)
     po = ['plain', 'mixed', 'dicts', 'custom', 'seq', 'none'][idx % 6]
@@ -197,6 +216,26 @@ def check_case(sink, seed, idx):  # noqa: C901
                        lambda: (k7, repr(v7)[:200]))
             sink.count('deviating-results')
             sink.cell('deviant', dname, 'first' if pos == 1 else 'last' if pos == m else 'middle', dgiven is not None)
+        # results that match the inner structure without being laid out like it (keys in another order, another standard dict kind): they are
+        # matched against the inner structure BY KEY, whichever variant and whether the inner structure was given or taken from the first result
+        if o.pred == 'none' and any(nd.k in gen.DICTS and len(nd.items) > 1 for nd in idesc.walk()):
+            vname, vfn, _, vfirst = rng.choice(variants)
+            vgiven = ispec if rng.random() < 0.5 else None
+            cells_v = {}
+            calls_v = [0]
+
+            def hv(*args):
+                i = calls_v[0]
+                calls_v[0] += 1
+                row = cells_v.setdefault(i, [U.Leaf(('v', i, j)) for j in range(n)])
+                res = ispec.unflatten(row)
+                return res if (i == 0 and vgiven is None) else neutral_variant(res, rng)
+
+            k11, v11 = outcome(lambda: vfn(hv, otree, inner_treespec=vgiven, **kw))
+            want11 = ispec.unflatten([ospec.unflatten([cells_v[i][j] for i in range(m)]) for j in range(n)]) if k11 == 'ok' and len(cells_v) == m else None
+            d11 = same.diff(want11, v11) if want11 is not None else (k11, repr(v11)[:200])
+            sink.check(k11 == 'ok' and d11 is None, 'transpose_map/results-matched-by-key', 'a result that matches the inner structure with its keys in another order / another dict kind is matched by key', dict(ident, variant=vname, given=vgiven is not None), d11)
+            sink.count('results-in-another-layout')
         # the inner structure is the one of the FIRST result: later results that are deeper are cut at it; a first result that is deeper
         # than a later one makes the later one a mismatch
         if m >= 2 and o.pred == 'none':
@@ -248,6 +287,7 @@ def finalize(sink, tier, seed):
     sink.require('deviating-results')
     sink.require('first-result-defines', 100)
     sink.require('reordered-twin-transposes', 100)
+    sink.require('results-in-another-layout', 100)
     for r in (0, 1, 2, 3):
         sink.require(f'transpose-maps-with-rests:{r}', 50)
     for v in ('tree_transpose_map', 'tree_transpose_map_with_path', 'tree_transpose_map_with_accessor'):
